@@ -112,6 +112,7 @@ def _helpers():
 
 PATH_NAMES = ["scale", "convert_to_si", "convert_to_unit", "expr_symbolic", "expr_evaluated", "evaluate_quantity"]
 HELPER_NAMES = ["evalq_n3", "evalq_chop", "to_si", "expr_eval_n4", "algebra", "print", "long_session"]
+N_IDS = 9                # identities / relations of spec/Constants.tla (IdNames)
 LONG_SESSION = 40000     # fresh quantities created by the history step "long_session" (a long interactive session)
 
 
@@ -259,10 +260,10 @@ def check_recorded(run: Run, sc: Path, tables, label: str = "") -> None:
     res = run_tlc("ConstantsTrace", cfg, sc, workers=1, env={"TRACE_FILE": str(tf)}, allow_violation=False)
     nrows = sum(len(t["rows"]) for t in tables)
     run.add_tlc(res, f"recorded constants: {len(tables)} tables (history of helper calls x read path), {nrows} rows and "
-                     f"{7 * len(tables)} identity evaluations decided by ConstantsTrace")
+                     f"{N_IDS * len(tables)} identity / relation evaluations decided by ConstantsTrace")
     verdicts = {(p["tb"], p["row"]): p for p in res.printed if "row" in p}
     ids = {(p["tb"], p["id"]): p for p in res.printed if "id" in p}
-    if len(verdicts) != nrows or len(ids) != 7 * len(tables):
+    if len(verdicts) != nrows or len(ids) != N_IDS * len(tables):
         raise RuntimeError(f"ConstantsTrace gave {len(verdicts)} row verdicts for {nrows} rows, {len(ids)} identity verdicts")
     bad_plain = set()      # (name or identity, path) already wrong without any prior helper call
     for n, t in enumerate(tables, start=1):
@@ -276,7 +277,14 @@ def check_recorded(run: Run, sc: Path, tables, label: str = "") -> None:
             run.traces += 1
             if not v["covered"]:
                 if plain and t["path"] == "scale":
-                    run.outside(f"constant without a reference row: {name}")
+                    if r["exported"]:
+                        # the statement quantifies over EVERY exported constant: one the reference table does not know
+                        # cannot be certified, and is not passed silently
+                        run.violation(f"uncovered {name}", f"exported constant without a reference value: {name} = {r['_value']} "
+                                      f"({r['_dimension']}) has no row in spec/Constants.tla, so its value and dimension cannot be "
+                                      "checked against CODATA/IAU; add the reference row", {"name": name, "recorded": r})
+                    else:
+                        run.outside(f"public constant not in __all__ without a reference row: {name}")
                 continue
             run.count(f"{name}{suffix}")
             what = []
